@@ -253,6 +253,14 @@ def post_get_regions(run, snap, res, args, kwargs):
         return run.ood(mon, "duplicate-sequence-names")
     want = [(n, s, e) for n, runs, _l in truth for s, e in runs]
     got = [(str(c), int(s), int(e)) for c, s, e in res]
+    if len(args) + len(kwargs) > 1:
+        # called with more than the file name (a refactored caller asking for a
+        # selection of sequences): what is reported must still be, per reported
+        # sequence and in file order, exactly its runs; which sequences may be
+        # left out is judged at do_access
+        reported = {g[0] for g in got}
+        want = [w for w in want if w[0] in reported]
+        run.extra["get_regions:called-with-selection"] += 1
     if got != want:
         extra = [g for g in got if g not in want][:3]
         missing = [w for w in want if w not in got][:3]
